@@ -205,6 +205,11 @@ func checkCacheIndexes(e *Env, ci *ClientInst, who string, tables map[string][]s
 // index values, and a probe carrying a row's index values under another uuid
 // must collide with exactly that row.
 func checkServerIndexes(e *Env, si *ServerInst, st DBState) {
+	if len(dupIndexTuples(e.Sch, st)) > 0 {
+		// the database itself stores a duplicate index tuple: that is C06's defect, and the index cannot agree with such contents
+		e.Abort("duplicate index tuple stored in the database: C06's concern")
+		return
+	}
 	ok, why := e.Sim.Try(func() {
 		for _, tn := range e.Sch.TableNames {
 			t := e.Sch.Tables[tn]
